@@ -104,6 +104,56 @@ func ruleRowIndex(p *Prog, r *Result) {
 			r.add(bad == "", key, p.InstrPos(ia), firstNonEmpty(bad, "a fixed row of an operand column is only probed for its dynamic type"))
 		})
 	}
+	// ... nor is one fixed pair of the chunk evaluated to decide something for all rows: an element of the chunk
+	// ([]KVPair) read at a constant index may only give its key to the per-chunk cache, it is not handed to Execute
+	for _, fn := range p.vectorFuncs() {
+		idx := 0
+		allInstrs(fn, func(in ssa.Instruction) {
+			ia, ok := in.(*ssa.IndexAddr)
+			if !ok {
+				return
+			}
+			if _, isC := constInt(ia.Index); !isC {
+				return
+			}
+			sl, isSl := ia.X.Type().Underlying().(*types.Slice)
+			if !isSl || typeName(sl.Elem()) != "KVPair" {
+				return
+			}
+			n++
+			idx++
+			bad := ""
+			for _, ref := range *ia.Referrers() {
+				ld, ok := ref.(*ssa.UnOp)
+				if !ok {
+					continue
+				}
+				for _, use := range *ld.Referrers() {
+					if c, ok := use.(ssa.CallInstruction); ok {
+						cc := c.Common()
+						nm := ""
+						if cc.IsInvoke() {
+							nm = cc.Method.Name()
+						} else if g := cc.StaticCallee(); g != nil {
+							nm = g.Name()
+						}
+						if nm == "Execute" || nm == "Filter" {
+							bad = fmt.Sprintf("pair %s of the chunk is evaluated on its own at %s: what it decides is applied to the other rows", ia.Index, p.InstrPos(use.(ssa.Instruction)))
+						} else if g := cc.StaticCallee(); g != nil && p.InPkg(g) {
+							for _, h := range p.staticClosure(g, 2, nil) {
+								allInstrs(h, func(in3 ssa.Instruction) {
+									if c3, ok := in3.(ssa.CallInstruction); ok && c3.Common().IsInvoke() && c3.Common().Method.Name() == "Execute" {
+										bad = fmt.Sprintf("pair %s of the chunk is handed to %s, which evaluates it on its own", ia.Index, g.Name())
+									}
+								})
+							}
+						}
+					}
+				}
+			}
+			r.add(bad == "", fmt.Sprintf("%s|chunk-const-index#%d", p.FName(fn), idx), p.InstrPos(ia), firstNonEmpty(bad, "a fixed pair of the chunk is not evaluated on its own"))
+		})
+	}
 	r.note("constant_index_reads_of_operand_columns", n)
 	r.ok("summary", "", fmt.Sprintf("%d constant-index reads of operand columns examined", n))
 }
